@@ -13,6 +13,10 @@
 (assert (forall ((s Str)) (! (>= (str-len s) 0) :pattern ((str-len s)))))
 (declare-sort Flt 0)
 (declare-const flt-zero Flt)
+; slice-relative index: at(off, i) = off + i, kept uninterpreted so that quantifier
+; triggers never contain arithmetic
+(declare-fun at (Int Int) Int)
+(assert (forall ((o Int) (i Int)) (! (= (at o i) (+ o i)) :pattern ((at o i)))))
 ; Go's truncated division / remainder
 (define-fun tdiv ((a Int) (b Int)) Int (ite (>= a 0) (div a b) (- (div (- a) b))))
 (define-fun tmod ((a Int) (b Int)) Int (- a (* b (tdiv a b))))
@@ -32,4 +36,4 @@
 ; clause of DIMACS integers satisfied
 ;@sig csat : row int asg -> bool
 (define-fun csat ((R (Array Int Int)) (o Int) (n Int) (A (Array Int Bool))) Bool
-  (exists ((k Int)) (and (<= 0 k) (< k n) (tvi A (select R (+ o k))))))
+  (exists ((k Int)) (and (<= 0 k) (< k n) (tvi A (select R (at o k))))))
